@@ -1,5 +1,5 @@
 (** C16 — a missing spec means [OPTIONS] ARG1 ARG2 ... *)
-From MowCli Require Import Base Values Flow Cmd DeclProofs.
+From MowCli Require Import Base Values Flow Cmd DeclProofs NormProofs.
 
 Section C16.
   Variable parse_float : str -> option str.
@@ -36,7 +36,17 @@ Section C16.
           ++ (match trim_space (default_spec opts args) with [] => [] | _ => c_space :: trim_space (default_spec opts args) end)
           ++ (if has_subs then lit " COMMAND [arg...]" else []).
   Proof. exact (usage_shows_default parse_float getenv). Qed.
+
+  (** The whole tree at once, the version flag declared first or last: give EVERY command of the application
+      that has no spec — the root and every sub-command at any depth — the spec synthesised from its own
+      declarations ([norm_app]: "[OPTIONS] " iff it declares an option, then its argument names in declaration
+      order); Run gives the same result for every argument vector. *)
+  Theorem C16_default_everywhere :
+    forall (a : cliapp) (argv : list str),
+      run parse_float getenv (norm_app parse_float getenv a) argv = run parse_float getenv a argv.
+  Proof. exact (run_norm parse_float getenv). Qed.
 End C16.
+Print Assumptions C16_default_everywhere.
 Print Assumptions C16_default.
 Print Assumptions C16_default_init.
 Print Assumptions C16_usage.
@@ -49,4 +59,19 @@ Example C16_nonvacuous :
   | inl (o, a) => default_spec o a
   | inr _ => []
   end = lit "[OPTIONS] SRC A_1 ".
+Proof. vm_compute. reflexivity. Qed.
+
+(** the normal form of a two-level application: both missing specs are filled in *)
+Example C16_everywhere_nonvacuous :
+  let pf := fun _ : str => None in
+  let ge := fun _ : str => [] in
+  let sub := Cmd (lit "run r") [] [] false [] None
+                 [mkDecl false KString (lit "SRC") [] [] false (VStr []) false;
+                  mkDecl true KBool (lit "f") [] [] false (VBool false) false]
+                 HAbsent HReturns HAbsent [] in
+  let root := Cmd (lit "app") [] [] false [] (Some 0)
+                  [mkDecl true KBool (lit "v") [] [] false (VBool false) false]
+                  HAbsent HReturns HAbsent [sub] in
+  let a := norm_app pf ge (mkApp root None) in
+  (c_spec (a_root a), map c_spec (c_subs (a_root a))) = (lit "[OPTIONS] ", [lit "[OPTIONS] SRC "]).
 Proof. vm_compute. reflexivity. Qed.
